@@ -1,9 +1,9 @@
-(* Obligation C18/event_not_spiked_yet.  Statement as printed by Coq from Inferno.C18.DelayAdjProofs; proof by reference.
+(* Obligation C18/event_not_spiked_yet.  Statement as printed by Coq from Inferno.C18.EventProofs; proof by reference.
    This file contains nothing else, so the statement cannot be weakened quietly. *)
 From Coq Require Import List ZArith Bool Reals Lra Lia.
-From Inferno Require Import Base.Num Base.NumR Gen.Stdkernels C18.DelayAdj C18.DelayAdjProofs.
+From Inferno Require Import Base.Num Base.NumR C18.DelayAdj C18.EventProofs.
 Import ListNotations.
 Open Scope R_scope.
 Theorem event_not_spiked_yet : forall (dt : R) (h : list bool), never h -> ev_peek dt h = None.
-Proof. exact (@Inferno.C18.DelayAdjProofs.event_not_spiked_yet). Qed.
+Proof. exact (@Inferno.C18.EventProofs.event_not_spiked_yet). Qed.
 Print Assumptions event_not_spiked_yet.
